@@ -42,6 +42,12 @@ CHECKS = {
  "C05": dict(cat="model_checking", ref="§5/C05",
    text="Same specification, CoerceArgumentValues and literal coercion (valueFromAST incl. variables inside list/object literals). TLC checks R1_Ways for every (type, value): literal, variable, variable default, schema default, variable-in-list and variable-in-object spellings yield the same argument dictionary (or all fail), delivered values are well-typed. Every cell is executed in all applicable spellings at field AND directive argument positions, plus omitted / null literal / null variable / absent variable per type, plus ill-typed variables nested in literals (never delivered).",
    technique="TLA+ argument/literal coercion spec + TLC-checked equivalence of spellings + replay of every spelling through echo resolvers and directive hooks"),
+ "C06": dict(cat="model_checking", ref="§5/C06",
+   text="Validation.tla has one predicate per supported rule (26); TLC checks R1_SeedsValid: every document the generator emits satisfies all of them (so the generator is inside the language of valid documents). The seeds (two layouts, definitions in both orders) and the fragment/operation/directive/variable-heavy generator configurations (fragment DAGs with sharing and repeated spreads, fragments defined after use, variables flowing through fragments, several named operations, meta-fields) are executed: no error may carry a validation-rule tag; a refusal is reported against the rule that fired.",
+   technique="TLA+ validation predicates (Validation.tla) TLC-checked on every generated document + replay of the valid documents into the engine"),
+ "C07": dict(cat="model_checking", ref="§5/C07",
+   text="Validation.tla also contains a catalogue of ~50 violation-injecting rewrites covering all 26 supported rules at every applicable site (operation root, second operation, nested selection, inside named / inline fragments, fragment definitions, directive arguments, nested input values, variable definitions). TLC applies every rewrite at every applicable node of every valid seed and checks R1_RewritesInvalid (the targeted rule predicate is false on the rewritten document). Every rewritten document (~80k) is sent to the engine: data null, non-empty errors, zero resolver / source-stream calls. Which rule reports is logged, not compared.",
+   technique="TLA+ rule predicates + rewrite catalogue (Validation.tla), TLC exhaustive (seed x rule x site), replay into the engine"),
 }
 NOT_YET = {}
 
